@@ -516,3 +516,11 @@ func init() {
 	mutant("close-error-can-be-nil", "client-loop-shape", "conn.go", "	if err := c.LastErr(); err != nil {\n		return err\n	}\n\n	return ErrConnectionClosed", "	if err := c.LastErr(); err == nil {\n		return err\n	}\n\n	return ErrConnectionClosed")
 	mutant("streamed-body-not-registered", "client-loop-shape", "conn.go", "			pb.stream = req.BodyStream()\n", "")
 }
+
+func init() {
+	mutant("frame-error-branch-inverted", "error-polarity", "serverConn.go", "			if err := sc.handleFrame(strm, fr); err != nil {", "			if err := sc.handleFrame(strm, fr); err == nil {")
+	mutant("read-error-branch-inverted", "error-polarity", "serverConn.go", "		fr, err = ReadFrameFromWithSize(sc.br, sc.st.frameSize)\n		if err != nil {", "		fr, err = ReadFrameFromWithSize(sc.br, sc.st.frameSize)\n		if err == nil {")
+	mutant("flush-only-after-a-failed-write", "error-polarity", "conn.go", "	_, err := fr.WriteTo(c.bw)\n	if err == nil {\n		err = c.bw.Flush()\n	}\n\n	c.bwLck.Unlock()\n\n	ReleaseHeaderField(hf)", "	_, err := fr.WriteTo(c.bw)\n	if err != nil {\n		err = c.bw.Flush()\n	}\n\n	c.bwLck.Unlock()\n\n	ReleaseHeaderField(hf)")
+	mutant("decode-error-branch-inverted", "error-polarity", "serverConn.go", "		b, err = sc.dec.nextField(hf, strm.blockFields == 0, strm.blockFields, b)\n		if err != nil {", "		b, err = sc.dec.nextField(hf, strm.blockFields == 0, strm.blockFields, b)\n		if err == nil {")
+	mutant("client-handshake-error-ignored", "error-polarity", "conn.go", "	if err = Handshake(true, c.bw, &c.current, c.maxWindow-65535); err != nil {", "	if err = Handshake(true, c.bw, &c.current, c.maxWindow-65535); err == nil {")
+}
